@@ -22,7 +22,9 @@ BOUNDS = {"quick": {"pricing_configs": 3, "max_credits": "[0,6] symbolic", "hist
 ASSUMPTIONS = ["a wait that ends exactly on an expiry deadline is assumed away",
                "coin values are multiples of 1/4 (exact in binary floating point), three fixed pricing configurations",
                "max_credits: 0 means unlimited (as the code documents); balls are faked (playfield.add_ball stubbed)",
-               "free-play mode: coins are not wired at all (handlers removed), so the ledger ignores coins while in free play"]
+               "free-play mode: coins are not wired at all (handlers removed), so the ledger ignores coins while in free play; a game "
+               "started in free play does not suspend the expiry periods (the statement is about credit play)",
+               "nothing expires during a credit-play game, whichever credits arrive during it (test_CreditsMode: 'but not during game')"]
 BUDGET = {"quick": 100, "thorough": 600}
 
 TIERS = {"a": [(2, 1), (8, 5)], "b": [(3, 1)], "c": [(4, 1), (12, 4), (20, 8)]}      # (price in units of .25, credits)
@@ -96,6 +98,12 @@ class Ledger:
             return min(new, self.max_units)
         return new
 
+    def _activity(self, now):
+        """a coin or credit event restarts both expiry periods - except during a game, where nothing expires"""
+        if not self.in_game:
+            self.last_activity = now
+            self.frac_done = False
+
     def coin(self, q, now):
         if self.free:
             return
@@ -104,8 +112,7 @@ class Ledger:
         add = ref_units_for(self.cfg, self.c + q) - ref_units_for(self.cfg, self.c)
         self.units = self._cap(self.units, self.units + add)
         self.c = (self.c + q) % self.wrap
-        self.last_activity = now
-        self.frac_done = False
+        self._activity(now)
 
     def service(self, now):
         if self.free:
@@ -116,8 +123,7 @@ class Ledger:
         if self.free:
             return
         self.units = self._cap(self.units, self.units + self.upg)
-        self.last_activity = now
-        self.frac_done = False
+        self._activity(now)
 
     def start(self, max_players=3):
         """returns True if a player must be added"""
@@ -133,13 +139,15 @@ class Ledger:
             self.players += 1
             if not self.in_game:
                 self.in_game = True
-                self.c = 0
-                self.last_activity = None
+                if not self.free:
+                    # a game started in free play does not involve the credits mode at all: periods keep running
+                    self.c = 0
+                    self.last_activity = None
         return ok
 
     def tick(self, S, now):
         """expiry: fractional credits 15 min, all credits 2 h after the last coin / game end, not during a game"""
-        if self.last_activity is None or self.in_game:
+        if self.last_activity is None:
             return
         d1, d2 = self.last_activity + 900, self.last_activity + 7200
         S.assume(now != d1)
@@ -289,6 +297,9 @@ def scenarios(tier):
     if tier == "quick":
         alpha = ["coin_q", "coin_d", "service", "start", "end_game", "wait"]
         hist = [dict(cfg=c, prefix=[p], n=3, alphabet=alpha) for c in "abc" for p in ("coin_d", "coin_q", "toggle")]
+        hist += [dict(cfg="a", prefix=["service", "start", "award"], n=4, alphabet=["wait", "end_game"]),
+                 dict(cfg="b", prefix=["coin_d", "coin_d", "start", "coin_q"], n=5, alphabet=["wait", "end_game"]),
+                 dict(cfg="b", prefix=["coin_d", "wait", "toggle", "start"], n=5, alphabet=["wait", "toggle"])]
     else:
         alpha = ["coin_q", "coin_d", "service", "start", "end_game", "wait", "toggle", "award"]
         hist = [dict(cfg=c, prefix=[p, q], n=4, alphabet=alpha) for c in "abc" for p in ("coin_d", "coin_q", "service")
